@@ -12,6 +12,30 @@ fn main() {
     let args: Vec<String> = std::env::args().collect();
     if args.len() < 2 { eprintln!("usage: replay <harness> [hex,hex,...]"); std::process::exit(2); }
     if args[1] == "--list" { for (n, _) in registry() { println!("{n}"); } return; }
+    if args[1] == "--enumerate" {
+        // replay --enumerate <harness> [max-runs]: exhaustive native walk of the harness's decision tree
+        let Some((_, body)) = registry().into_iter().find(|(n, _)| *n == args[2]) else { eprintln!("unknown harness {}", args[2]); std::process::exit(2); };
+        let max: u64 = args.get(3).and_then(|s| s.parse().ok()).unwrap_or(50_000_000);
+        nd::enum_start();
+        let mut runs = 0u64;
+        loop {
+            nd::enum_begin_run();
+            let r = std::panic::catch_unwind(|| body());
+            runs += 1;
+            let failed = nd::FAILED.with(|f| f.borrow().clone());
+            let valid = !nd::ASSUME_FAILED.with(|f| f.get());
+            if valid && (!failed.is_empty() || r.is_err()) {
+                let script = nd::enum_script();
+                println!("ENUM-FAILED after {runs} runs: {}", failed.join(" | "));
+                if r.is_err() { println!("ENUM-FAILED panic in the code under test"); }
+                println!("ENUM-VALUES {}", script.iter().map(|b| format!("{b:02x}")).collect::<Vec<_>>().join(","));
+                std::process::exit(1);
+            }
+            if !nd::enum_advance() || runs >= max { break; }
+        }
+        println!("ENUM-OK {runs} runs, no obligation failed");
+        return;
+    }
     let vals: Vec<Vec<u8>> = if args.len() > 2 && !args[2].is_empty() { args[2].split(',').map(unhex).collect() } else { vec![] };
     let Some((_, body)) = registry().into_iter().find(|(n, _)| *n == args[1]) else { eprintln!("unknown harness {}", args[1]); std::process::exit(2); };
     nd::load(vals);
